@@ -44,12 +44,13 @@ DIFF_TOL = 0.9e-3           # own verdict "different": some float field differs 
 # ------------------------------------------------------------------------------------------------
 # strategies (plain JSON)
 # ------------------------------------------------------------------------------------------------
-def _far(nfields):
-    return st.one_of(st.none(), st.fixed_dictionaries({"field": st.integers(0, nfields - 1), "idx": st.integers(0, 11), "delta": st.sampled_from(FAR)}))
+def _far(nfields, weights=None):
+    field = st.integers(0, nfields - 1) if weights is None else st.sampled_from(weights)
+    return st.one_of(st.none(), st.fixed_dictionaries({"field": field, "idx": st.integers(0, 11), "delta": st.sampled_from(FAR)}))
 
 
 @st.composite
-def _items(draw, nnear, nfields, near_ok=True, extra=None):
+def _items(draw, nnear, nfields, near_ok=True, extra=None, weights=None):
     n = draw(st.integers(3, 6))
     out = []
     for m in range(n):
@@ -58,7 +59,7 @@ def _items(draw, nnear, nfields, near_ok=True, extra=None):
         if kind in ("near", "nearfar") and near_ok and nnear:
             it["near"] = draw(vs.ulps(nnear))
         if kind in ("far", "nearfar"):
-            it["far"] = draw(_far(nfields))
+            it["far"] = draw(_far(nfields, weights))
         if extra is not None:
             it.update(draw(extra))
         out.append(it)
@@ -94,9 +95,10 @@ def cluster_cases(draw):
     bases = []
     for _ in range(2):
         sites = [{"ci": [draw(st.integers(0, 1)), draw(st.integers(0, 2))], "R": draw(vs.lattvec(d, -2, 2))} for _ in range(draw(st.integers(2, 4)))]
-        bases.append({"sites": sites, "transition": draw(st.booleans()), "vacancy": draw(st.booleans())})
+        tr, vac = draw(st.sampled_from([(False, False), (True, False), (True, False), (False, True), (True, True)]))
+        bases.append({"sites": sites, "transition": tr, "vacancy": vac})
     extra = st.fixed_dictionaries({"perm": st.integers(0, 3), "shift": vs.lattvec(d, -3, 3), "rev": st.booleans()})
-    return {"type": "Cluster", "dim": d, "bases": bases, "items": draw(_items(0, 6, extra=extra)), "ne": True}
+    return {"type": "Cluster", "dim": d, "bases": bases, "items": draw(_items(0, 6, extra=extra, weights=[0, 1, 2, 3, 4, 5, 5, 5])), "ne": True}
 
 
 @st.composite
@@ -155,7 +157,7 @@ def verdict(fa, fb):
     return same
 
 
-def laws(name, objs, fields, ne, labels):
+def laws(name, objs, fields, ne, labels, unasserted=None):
     """equivalence-relation, !=, hash laws on a pool + comparison of == with the oracle's verdict"""
     n = len(objs)
     E = [[None] * n for _ in range(n)]
@@ -182,6 +184,8 @@ def laws(name, objs, fields, ne, labels):
     for a in range(n):
         for b in range(n):
             want = verdict(fields[a], fields[b])
+            if unasserted is not None and not want and unasserted(a, b):
+                continue
             require(E[a][b] == want, lambda: "%s: items %d (%s) and %d (%s): == gives %s, the documented meaning of equality gives %s"
                     % (name, a, labels[a], b, labels[b], E[a][b], want))
     if ne:
@@ -354,6 +358,25 @@ def canon_cluster(sites, transition, vacancy):
     return (bool(transition), bool(vacancy), tuple(head), tuple(sorted(tag(s) for s in sites[nfix:])))
 
 
+def loose_cluster(sites, transition, vacancy):
+    """identity in which the transition pair and the site set are each taken modulo their OWN translation.  Two
+    transition-state clusters without vacancy that agree in this form but not in canon_cluster are geometrically different
+    clusters which Cluster.__eq__ nevertheless reports equal (finding of C31, 'Cluster enumeration and identity').  That
+    coarser relation is still an equivalence relation with a consistent hash, so C36's statement is not concerned:
+    such pairs are not compared with the oracle's verdict (class 'Cluster_C31_ts_region_unasserted')."""
+    if not (transition and not vacancy):
+        return None
+    N = len(sites)
+    center = sum(R for _, R in sites)
+    tags = tuple(sorted((tuple(int(x) for x in ci), tuple(int(x) for x in (N * R - center))) for ci, R in sites))
+    (c0, R0), (c1, R1) = sites[0], sites[1]
+    pair = min((tuple(c0), tuple(c1), tuple(int(x) for x in (R1 - R0))), (tuple(c1), tuple(c0), tuple(int(x) for x in (R0 - R1))))
+    return (tags, pair)
+
+
+LOOSE = {}
+
+
 def build_clusters(case):
     from onsager.cluster import ClusterSite, Cluster
     d = case["dim"]
@@ -384,6 +407,7 @@ def build_clusters(case):
             # same set of sites, another site plays the role of the (last) transition/vacancy site
             m = far["idx"] % len(rest)
             head[-1], rest[m] = rest[m], head[-1]
+            classes.append("cluster_head_swapped_%s%s" % ("TS" if tr else "", "vac" if vac else ""))
         if it.get("rev") and tr:
             head = [head[1], head[0]]
         if rest:
@@ -394,6 +418,7 @@ def build_clusters(case):
         cl = Cluster([ClusterSite(ci=ci, R=R) for (ci, R) in lis], transition=tr, vacancy=vac)
         objs.append(cl)
         fields.append([('o', canon_cluster(lis, tr, vac))])
+        LOOSE[id(cl)] = loose_cluster(lis, tr, vac)
         classes.append("cluster_%s%s" % ("TS" if tr else "", "vac" if vac else "") if (tr or vac) else "cluster_plain")
     return objs, fields, sorted(set(classes))
 
@@ -544,8 +569,20 @@ def check(case):
             return {"classes": ["reduce_arith_error(C19 domain)"], "nontrivial": False}
         raise
     labels = [_label(it) for it in case["items"]]
-    neq, nne = laws(NAMES[typ], objs, fields, case.get("ne", True), labels)
     classes = list(classes) + ["type_" + typ]
+    unasserted = None
+    if typ == "Cluster":
+        loose = [LOOSE.pop(id(o)) for o in objs]
+        hit = []
+
+        def unasserted(a, b):
+            if loose[a] is not None and loose[a] == loose[b]:
+                hit.append((a, b))
+                return True
+            return False
+    neq, nne = laws(NAMES[typ], objs, fields, case.get("ne", True), labels, unasserted)
+    if typ == "Cluster" and hit:
+        classes.append("Cluster_C31_ts_region_unasserted")
     if any(it.get("near") and any(it["near"]) for it in case["items"]):
         classes.append(typ + "_near_items")
     if any(it.get("far") for it in case["items"]):
@@ -580,7 +617,7 @@ def run(ctx):
     ctx.corpus(check)
     ctx.known(as_violation(check))
     n0 = ctx.evaluations
-    ctx.given(cases(), check, quick=2400, thorough=80000)
+    ctx.given(cases(), check, quick=2000, thorough=80000)
     nvtk = ctx.classes.get("type_vTK", 0)
     if EXCLUDE_R5:
         ctx.exclude("R5", nvtk)     # every vacancyThermoKinetics pool would evaluate !=
